@@ -173,8 +173,17 @@ pub fn props_project(props: &[PropDef]) -> ProjSpec {
     }
 }
 
+/// Every test of every module of the project.
+pub fn compile_all_tests(root: &Path, opts: &Opts) -> Result<Vec<Test>, String> {
+    compile_tests_where(root, opts, |_| true)
+}
+
 /// Compile the project's tests the way `collect_test_items` does (one shared generator).
 pub fn compile_tests(root: &Path, opts: &Opts) -> Result<Vec<Test>, String> {
+    compile_tests_where(root, opts, |m| m == "props")
+}
+
+fn compile_tests_where(root: &Path, opts: &Opts, keep: impl Fn(&str) -> bool) -> Result<Vec<Test>, String> {
     let (mut project, _cap) = new_project(root)?;
     let res = project.check(
         true,
@@ -199,7 +208,7 @@ pub fn compile_tests(root: &Path, opts: &Opts) -> Result<Vec<Test>, String> {
     let mut generator = project.new_generator(opts.tracing());
     let mut tests = vec![];
     for m in &modules {
-        if m.name != "props" {
+        if !keep(&m.name) || m.package.is_empty() {
             continue;
         }
         for def in m.ast.definitions() {
